@@ -13,6 +13,7 @@ import Binson.Spec.Decode
 import Binson.Spec.Render
 import Binson.Spec.Cursor
 import Binson.Model.Api
+import Binson.Model.Counted
 import Binson.Model.Writer
 import Binson.Model.Print
 import Binson.Model.Transcribe
@@ -88,8 +89,8 @@ def setP (w : World) (k : Nat) (p : Parser) : World := { w with ps := w.ps.setIf
 def getW (w : World) (k : Nat) : Option Writer := (w.ws.getD k none)
 def setW (w : World) (k : Nat) (x : Writer) : World := { w with ws := w.ws.setIfInBounds k (some x) }
 
-/-- the uniform parser observation of `pobs` in drive.c; `c0` = callback count before the call -/
-def pobs (p : Parser) (ret : String) (c0 : Nat) : String :=
+/-- the uniform parser observation of `pobs` in drive.c; `cb` = callbacks during the call -/
+def pobs (p : Parser) (ret : String) (cb : Nat) : String :=
   let t := getType p
   let nm := if p.err = .none then (match (p.getLvl p.cur).name with | some s => s!"{s.off}+{s.len}" | none => "-") else "-"
   let v := if p.err ≠ .none then "x" else match t with
@@ -100,7 +101,7 @@ def pobs (p : Parser) (ret : String) (c0 : Nat) : String :=
     | .bytes => s!"y{spanStr (getBytesBbuf p)}"
     | _ => "_"
   let ghosts := (if p.fault then " FAULT" else "") ++ (if p.oof then " OUTOFFUEL" else "")
-  s!"{ret} e{errNum p.err} d{getDepth p} u{p.used} t{tyNum t} n{nm} {v} c{p.ncb - c0}{ghosts}"
+  s!"{ret} e{errNum p.err} d{getDepth p} u{p.used} t{tyNum t} n{nm} {v} c{cb}{ghosts}"
 
 def wobs (w : Writer) (ret : Bool) : String :=
   s!"{ret.toNat} e{errNum w.err} c{w.counter}" ++ (if w.fault then " FAULT" else "")
@@ -190,8 +191,8 @@ def execModel (w : World) (toks : List String) (hint : String) : World × String
     match getP w k with | some p => f p | none => (w, "no-parser")
   let withW (f : Writer → World × String) : World × String :=
     match getW w k with | some x => f x | none => (w, "no-writer")
-  let boolOp (f : Parser → Parser × Bool) : World × String :=
-    withP fun p => let r := f p; (setP w k r.1, pobs r.1 (toString r.2.toNat) p.ncb)
+  let boolOp (f : Parser → Parser × Bool × Nat) : World × String :=
+    withP fun p => let r := f p; (setP w k r.1, pobs r.1 (toString r.2.1.toNat) r.2.2)
   let wOp (op : WOp) : World × String :=
     withW fun x => let r := x.step op; (setW w k r.1, wobs r.1 r.2)
   match (if (toks.headD "").startsWith "x" then execCpp toks else none) with
@@ -206,31 +207,31 @@ def execModel (w : World) (toks : List String) (hint : String) : World × String
       | [] => (match hint.splitOn " f" with | [_, f] => f.trimAscii.toString.toNat! | _ => 0)
     (setP w k (garbageParser md.toNat! (flagsOfWord f0)), s!"P {md} f{f0}")
   | ["I", t, hx] =>
-    withP fun p => let r := init p (parseHex hx) (if t == "a" then 2 else 1); (setP w k r.1, pobs r.1 (toString r.2.toNat) p.ncb)
-  | ["r"] => boolOp reset
-  | ["v"] => boolOp fun p => let r := verify p; (r.1, r.2.1)
-  | ["n"] => boolOp next
-  | ["N", t] => boolOp fun p => nextEnsure p (numTy t.toNat!)
-  | ["io"] => boolOp goIntoObject
-  | ["ia"] => boolOp goIntoArray
-  | ["lo"] => boolOp leaveObject
-  | ["la"] => boolOp leaveArray
-  | ["f", hx] => boolOp fun p => field p (parseHex hx).toList
-  | ["fz", hx] => boolOp fun p => field p (parseHex hx).toList
-  | ["F", hx, t] => boolOp fun p => fieldEnsure p (parseHex hx).toList (numTy t.toNat!)
-  | ["Fz", hx, t] => boolOp fun p => fieldEnsure p (parseHex hx).toList (numTy t.toNat!)
-  | ["gt"] => withP fun p => (w, pobs p s!"T{tyNum (getType p)}" p.ncb)
-  | ["gD"] => withP fun p => (w, pobs p s!"D{getDepth p}" p.ncb)
-  | ["gn"] => withP fun p => let r := getName p; (setP w k r.1, pobs r.1 s!"N{spanStr r.2}" p.ncb)
-  | ["gs"] => withP fun p => (w, pobs p s!"S{spanStr (getStringBbuf p)}" p.ncb)
-  | ["gy"] => withP fun p => (w, pobs p s!"Y{spanStr (getBytesBbuf p)}" p.ncb)
-  | ["gi"] => withP fun p => (w, pobs p s!"I{getInteger p}" p.ncb)
-  | ["gb"] => withP fun p => (w, pobs p s!"B{(getBoolean p).toNat}" p.ncb)
-  | ["gd"] => withP fun p => (w, pobs p s!"G{getDouble p}" p.ncb)
-  | ["se", hx] => withP fun p => (w, pobs p s!"E{(stringEquals p (parseHex hx).toList).toNat}" p.ncb)
+    withP fun p => let r := init p (parseHex hx) (if t == "a" then 2 else 1); (setP w k r.1, pobs r.1 (toString r.2.toNat) 0)
+  | ["r"] => boolOp fun p => let r := reset p; (r.1, r.2, 0)
+  | ["v"] => boolOp fun p => let r := verify p; (r.1, r.2.1, r.2.2.length)
+  | ["n"] => boolOp nextC
+  | ["N", t] => boolOp fun p => nextEnsureC p (numTy t.toNat!)
+  | ["io"] => boolOp goIntoObjectC
+  | ["ia"] => boolOp goIntoArrayC
+  | ["lo"] => boolOp leaveObjectC
+  | ["la"] => boolOp leaveArrayC
+  | ["f", hx] => boolOp fun p => fieldC p (parseHex hx).toList
+  | ["fz", hx] => boolOp fun p => fieldC p (parseHex hx).toList
+  | ["F", hx, t] => boolOp fun p => fieldEnsureC p (parseHex hx).toList (numTy t.toNat!)
+  | ["Fz", hx, t] => boolOp fun p => fieldEnsureC p (parseHex hx).toList (numTy t.toNat!)
+  | ["gt"] => withP fun p => (w, pobs p s!"T{tyNum (getType p)}" 0)
+  | ["gD"] => withP fun p => (w, pobs p s!"D{getDepth p}" 0)
+  | ["gn"] => withP fun p => let r := getName p; (setP w k r.1, pobs r.1 s!"N{spanStr r.2}" 0)
+  | ["gs"] => withP fun p => (w, pobs p s!"S{spanStr (getStringBbuf p)}" 0)
+  | ["gy"] => withP fun p => (w, pobs p s!"Y{spanStr (getBytesBbuf p)}" 0)
+  | ["gi"] => withP fun p => (w, pobs p s!"I{getInteger p}" 0)
+  | ["gb"] => withP fun p => (w, pobs p s!"B{(getBoolean p).toNat}" 0)
+  | ["gd"] => withP fun p => (w, pobs p s!"G{getDouble p}" 0)
+  | ["se", hx] => withP fun p => (w, pobs p s!"E{(stringEquals p (parseHex hx).toList).toNat}" 0)
   | ["gr"] => withP fun p =>
-      let r := getRaw p
-      (setP w k r.1, pobs r.1 (if r.2.1 then s!"1R{r.2.2.off}+{r.2.2.len}" else "0R-") p.ncb)
+      let r := getRawC p
+      (setP w k r.1, pobs r.1 (if r.2.1 then s!"1R{r.2.2.1.off}+{r.2.2.1.len}" else "0R-") r.2.2.2)
   | "ts" :: cap :: rest => withP fun p =>
       let isNull := cap == "NULL"
       let capN := if isNull then 0 else cap.toNat!
@@ -265,7 +266,7 @@ def execModel (w : World) (toks : List String) (hint : String) : World × String
   | ["dump"] => withW fun x => (w, "m" ++ (if x.bufNull then "NULL" else memOut x.mem))
   | ["p2w"] => withP fun p => withW fun x =>
       let r := parserToWriter p x
-      (setW (setP w k r.1) k r.2.1, pobs r.1 (toString r.2.2.toNat) p.ncb ++ " | " ++ wobs r.2.1 r.2.2)
+      (setW (setP w k r.1) k r.2.1, pobs r.1 (toString r.2.2.toNat) (getRawC p).2.2.2 ++ " | " ++ wobs r.2.1 r.2.2)
   | ["tr", cap] => withP fun p =>
       let capN := cap.toNat!
       let x := (Writer.init (pattern capN) capN).1
